@@ -50,7 +50,7 @@ PROPS = {
         "rule": "one evaluation = one generated world (1-9 immutable objects with sizes around multiples of the subrange size, subrange size "
                 "16-4096, maxSubRequests 0-4, seven TTLs, per-operation matcher class, cache behaviour) and one read history per client "
                 "(3-10 calls each out of GetRange with aligned/unaligned/past-the-end offsets and lengths, Get full or abandoned, Exists, "
-                "Attributes, Iter flat/recursive, with fake-time pauses), executed once under a seeded schedule; every answer is compared "
+                "Attributes, Iter flat/recursive, with fake-time pauses; a quarter of the GetRange and a sixth of the Get readers are kept open and only read after the client's next call and the other clients' turns), executed once under a seeded schedule; every answer is compared "
                 "with the in-memory bucket's answer to the same call. distinct = distinct hash of the event log (schedule, cache hit/drop/"
                 "evict outcomes, per-call outcomes); non-trivial = at least one call completed and the cache was consulted.",
         "components": {
